@@ -706,6 +706,13 @@ def r184(ctx, repo):
     def gleaf(fold, e):
         if isinstance(e, ast.Call) and id(e) in index:
             return f"V{index[id(e)]}"
+        if isinstance(e, ast.Call) and call_name(e) in (
+                "np.array", "np.asarray", "np.copy", "float",
+                "np.float64") and e.args:
+            return fold.rat(e.args[0])
+        if isinstance(e, ast.Call) and last_attr(e) == "astype" \
+                and isinstance(e.func, ast.Attribute):
+            return fold.rat(e.func.value)
         if isinstance(e, ast.Subscript):
             t = txt(e).replace("(", "").replace(")", "")
             if t in ("cc[:, 0]", "cc[:, 1]"):
@@ -736,7 +743,12 @@ def r184(ctx, repo):
                 hits.append((a, r))
         if not hits:
             raise AnalysisError("get_volume: centring statement lost")
-        bad = [a for a, r in hits if not r.same(want)]
+        # the radial column (1) must be centred - the radii enter the
+        # volume; the axial column (0) enters through differences only and
+        # through the orientation test (decided by the evaluation of R18.6):
+        # it is either left as it is or shifted by exactly pos_x / pix
+        bad = [a for a, r in hits if not (r.same(want) or (
+            k == "0" and r.same(col)))]
         ctx.ob("R18.4", not bad, f"column {k} is centred with "
                f"{pos.replace('[i]', '[ii]')}/pix" if not bad else
                f"column {k} is centred by `{short(bad[0].value, 50)}` "
@@ -927,6 +939,77 @@ def r186(ctx, repo):
                if ok else "one coordinate of a vol_revolve call is reversed "
                "without the other", node=c2,
                label="reversal applies to both coordinates")
+
+
+def r186_eval(ctx, repo):
+    """get_volume evaluated (analyser's numpy model, floats) on one polygon
+    at several positions, both orientations and all start points: sign flip,
+    translation invariance and the orientation fix"""
+    gv_node = repo.func(VOL, "get_volume")
+    it = L.Interp(repo)
+    try:
+        env = it.env(VOL, {"np": L.NPModel()})
+        gv = env.lookup("get_volume")
+        pts = [(10, 0), (7, 4), (2, 5), (-6, 3), (-9, -1), (-3, -5), (4, -4)]
+        pix = 0.34
+        rows = []
+        for x0 in (12, 60, 600):
+            for start in (0, 3):
+                for rev in (False, True):
+                    p = [(x + x0, y + 30) for x, y in pts]
+                    p = p[start:] + p[:start]
+                    if rev:
+                        p = p[::-1]
+                    cx = sum(q[0] for q in p) / len(p) * pix
+                    cy = sum(q[1] for q in p) / len(p) * pix
+                    c1, c2 = (L.Mat([list(q) for q in p]) for _ in (0, 1))
+                    raw = L.run(lambda: gv(c1, cx, cy, pix))
+                    fix = L.run(lambda: gv(c2, cx, cy, pix,
+                                           fix_orientation=True))
+                    rows.append((x0, start, rev, raw, fix))
+    except AnalysisError as e:
+        ctx.note(f"R18.6: get_volume could not be evaluated on the model "
+                 f"({e}); only the structural obligations apply")
+        return
+    bad = [r for r in rows if r[3][0] != "ok" or r[4][0] != "ok"
+           or not all(isinstance(v[1], float) for v in (r[3], r[4]))]
+    if bad:
+        r = bad[0]
+        ctx.ob("R18.6", False, f"get_volume fails on a {len(pts)}-point "
+               f"polygon at x = {r[0]} (reversed={r[2]}): "
+               f"{r[3] if r[3][0] != 'ok' else r[4]}", node=gv_node,
+               label="volume of a model polygon")
+        return
+    ref = abs(rows[0][3][1])
+
+    def close(a, b):
+        return abs(a - b) <= 1e-9 * max(1.0, abs(a), abs(b))
+    flips = [r for r in rows if not close(abs(r[3][1]), ref)]
+    by = {}
+    for r in rows:
+        by.setdefault((r[0], r[1]), {})[r[2]] = r[3][1]
+    nosign = [k for k, v in by.items() if not close(v[False], -v[True])]
+    ctx.ob("R18.6", not flips and not nosign and ref > 0,
+           f"the volume of the model polygon is the same at every position "
+           f"and start point and changes sign with the orientation "
+           f"({len(rows)} evaluations)" if not flips and not nosign else
+           (f"the volume depends on the position / start point: "
+            f"{flips[0][3][1]} at x = {flips[0][0]} vs {ref}" if flips else
+            f"reversing the contour at x = {nosign[0][0]} does not flip the "
+            f"sign of the volume"), node=gv_node,
+           label="volume: translation invariant, sign follows orientation")
+    wrong = [r for r in rows if not close(r[4][1], ref)]
+    ctx.ob("R18.6", not wrong,
+           f"fix_orientation=True returns the positive volume for both "
+           f"orientations at every position ({len(rows)} evaluations)"
+           if not wrong else
+           f"fix_orientation=True returns {wrong[0][4][1]:.6g} instead of "
+           f"{ref:.6g} for the {'reversed ' if wrong[0][2] else ''}polygon "
+           f"at x = {wrong[0][0]} (start point {wrong[0][1]}): the "
+           f"orientation test depends on where the contour lies (it must be "
+           f"centred before an angle / open-sum test, or the test must be "
+           f"translation invariant)", node=gv_node,
+           label="orientation fix works at every position")
 
 
 # ----------------------------------------------------------------------
@@ -1593,6 +1676,152 @@ def r188(ctx, repo):
 
 
 
+# ----------------------------------------------------------------------
+# R18.9 single-event inputs are wrapped; availability test = data source
+
+CTC = "dclab/rtdc_dataset/feat_anc_core/af_fl_max_ctc.py"
+
+
+def _wraps(value, name):
+    """is `value` a one-event sequence built from `name`?"""
+    if isinstance(value, (ast.List, ast.Tuple)) and len(value.elts) == 1 \
+            and isinstance(value.elts[0], ast.Name) \
+            and value.elts[0].id == name:
+        return True
+    if isinstance(value, ast.Call) and call_name(value) in (
+            "np.array", "np.asarray", "np.atleast_1d", "np.atleast_2d",
+            "np.atleast_3d", "np.expand_dims", "list") and value.args:
+        a = value.args[0]
+        if isinstance(a, ast.Name) and a.id == name and call_name(
+                value) not in ("np.array", "np.asarray", "list"):
+            return True
+        return _wraps(a, name)
+    if isinstance(value, ast.Subscript) and isinstance(
+            value.value, ast.Name) and value.value.id == name and txt(
+            value.slice).replace("(", "").replace(")", "") in (
+            "np.newaxis", "None", "np.newaxis, ...", "None, ...",
+            "np.newaxis, :", "None, :"):
+        return True
+    return False
+
+
+def _wrapped_in(stmts, params):
+    out = set()
+    for st in stmts:
+        for n in walk(st):
+            if not isinstance(n, ast.Assign):
+                continue
+            for t in n.targets:
+                if isinstance(t, ast.Name) and t.id in params and _wraps(
+                        n.value, t.id):
+                    out.add(t.id)
+                elif isinstance(t, (ast.Tuple, ast.List)) and isinstance(
+                        n.value, (ast.Tuple, ast.List)) and len(
+                        t.elts) == len(n.value.elts):
+                    for te, ve in zip(t.elts, n.value.elts):
+                        if isinstance(te, ast.Name) and te.id in params \
+                                and _wraps(ve, te.id):
+                            out.add(te.id)
+    return out
+
+
+def r189(ctx, repo):
+    n_fn = 0
+    for rel in FEATURE_FILES:
+        for q, f0 in repo.all_functions(rel):
+            if "." in q:
+                continue
+            fn = normalised(repo, rel, q)
+            a = fn.args
+            params = {x.arg for x in a.args + a.kwonlyargs}
+            branches = [n for n in walk(fn) if isinstance(n, ast.If)
+                        and _wrapped_in(n.body, params)]
+            if not branches:
+                continue
+            br = branches[0]
+            wrapped = _wrapped_in(br.body, params)
+            # unconditional promotion to 1-d also counts
+            always = set()
+            for st in fn.body:
+                if isinstance(st, ast.Assign):
+                    always |= {t.id for t in st.targets if isinstance(
+                        t, ast.Name) and t.id in params and isinstance(
+                        st.value, ast.Call) and call_name(st.value) in (
+                        "np.atleast_1d",) and st.value.args and txt(
+                        st.value.args[0]) == t.id}
+            indexed = {}
+            for lp in walk(fn):
+                if isinstance(lp, ast.For) and isinstance(
+                        lp.target, ast.Name):
+                    v = lp.target.id
+                    for n in walk(lp):
+                        if isinstance(n, ast.Subscript) and isinstance(
+                                n.value, ast.Name) and n.value.id in params \
+                                and isinstance(n.slice, ast.Name) \
+                                and n.slice.id == v:
+                            indexed.setdefault(n.value.id, n)
+            if not indexed:
+                continue
+            n_fn += 1
+            miss = sorted(set(indexed) - wrapped - always)
+            ctx.ob("R18.9", not miss,
+                   f"every per-event input indexed by the event loop "
+                   f"({', '.join(sorted(indexed))}) is wrapped for a single "
+                   f"event" if not miss else
+                   f"for a single event {sorted(wrapped)} are wrapped into "
+                   f"one-element sequences but `{miss[0]}` is not, although "
+                   f"the loop reads `{txt(indexed[miss[0]])}`: the first "
+                   f"*row* of the single {miss[0]} is taken for the event "
+                   f"(silently broadcast)", node=br,
+                   key=f"{rel}::{q}::single-event inputs wrapped")
+    if n_fn < 6:
+        raise AnalysisError("single-event branches of the feature functions "
+                            "not found")
+    # crosstalk recipe: the availability test and the read use one source
+    fn = repo.func(CTC, "compute_ctc")
+    n_t = 0
+    for n in walk(fn):
+        if not isinstance(n, ast.If):
+            continue
+        t = n.test
+        if not (isinstance(t, ast.Compare) and len(t.ops) == 1 and isinstance(
+                t.ops[0], ast.In) and const_str(t.left)):
+            continue
+        feat = const_str(t.left)
+        reads = [x for st in n.body for x in ast.walk(st)
+                 if isinstance(x, ast.Subscript) and const_str(x.slice)
+                 == feat]
+        if not reads:
+            continue
+        n_t += 1
+        src = t.comparators[0]
+        def origin(e, depth=3):
+            """local aliases expanded"""
+            while depth and isinstance(e, ast.Name):
+                defs = [st.value for st in walk(fn) if isinstance(
+                    st, ast.Assign) and any(isinstance(tt, ast.Name)
+                                            and tt.id == e.id
+                                            for tt in st.targets)]
+                if len(defs) != 1:
+                    break
+                e = defs[0]
+                depth -= 1
+            return e
+        src = origin(src)
+        ok = all(txt(origin(r.value)) == txt(src) for r in reads)
+        ctx.ob("R18.9", ok,
+               f"'{feat}' is read from the object whose membership was "
+               f"tested" if ok else
+               f"'{feat}' is tested with `in {txt(src)}` but read from "
+               f"`{txt(reads[0].value)}`: a channel that is available there "
+               f"(temporary, basin) but not in `{txt(src)}` enters the "
+               f"compensation as 0", node=n,
+               key=f"{CTC}::compute_ctc::availability of {feat} = source")
+    if n_t < 3:
+        raise AnalysisError("compute_ctc: channel availability tests lost")
+
+
+
 def run(ctx):
     repo = ctx.repo
     ctx.rule("R18.1", "optional array-valued bg_off is tested with `is (not) "
@@ -1608,6 +1837,9 @@ def run(ctx):
     ctx.rule("R18.6", "r and z of each vol_revolve call follow the same "
              "orientation; the mirrored half is reversed", minimum=4)
     ctx.rule("R18.7", "axis-swap symmetry of contour moments", minimum=20)
+    ctx.rule("R18.9", "single-event branch wraps every per-event input the "
+             "event loop indexes; crosstalk channels are read from the "
+             "object whose membership was tested", minimum=9)
     ctx.rule("R18.8", "in-place updates in the feature functions act on "
              "arrays the function allocated, never on (views of) its "
              "arguments", minimum=8)
@@ -1616,9 +1848,11 @@ def run(ctx):
     r183(ctx, repo)
     r184(ctx, repo)
     r186(ctx, repo)
+    r186_eval(ctx, repo)
     r185(ctx, repo)
     r187(ctx, repo)
     r188(ctx, repo)
+    r189(ctx, repo)
 
 
 MUTANTS = [
@@ -2093,4 +2327,63 @@ MUTANTS = list(MUTANTS) + [
     ("imported inv replaced by the transpose", CT,
      ("    return np.linalg.inv(crosstalk)", "    return crosstalk.T"),
      "R18.5"),
+]
+
+# round-3 seeded changes /verif/seeded/C18_7 .. C18_9 and relatives
+_BC_WRAP = ("        image_bg = [image_bg]\n"
+            "        image = [image]\n"
+            "        mask = [mask]\n")
+_CCW_OLD = ("    # test orientation\n"
+            "    angles = np.unwrap(np.arctan2(cy, cx))\n"
+            "    grad = np.diff(angles)\n"
+            "    if np.average(grad) < 0:\n")
+_CENTRE_X = "            contour_x = cc[:, 0] - pos_x[ii] / pix\n"
+
+MUTANTS = list(MUTANTS) + [
+    ("bright_bc: single background not wrapped (seeded)", BC,
+     (_BC_WRAP, "        image, mask = [image], [mask]\n"), "R18.9"),
+    ("bright_perc: single mask not wrapped", PERC,
+     ("        image_bg = [image_bg]\n        image = [image]\n"
+      "        mask = [mask]\n",
+      "        image_bg = [image_bg]\n        image = [image]\n"), "R18.9"),
+    ("volume: single contour not wrapped", VOL,
+     ("        cont = [cont]\n        ret_list = False",
+      "        ret_list = False"), "R18."),
+    ("crosstalk recipe: channels looked up in features_innate (seeded)", CTC,
+     [('    if "fl1_max" in mm:', '    if "fl1_max" in mm.features_innate:'),
+      ('    if "fl2_max" in mm:', '    if "fl2_max" in mm.features_innate:'),
+      ('    if "fl3_max" in mm:', '    if "fl3_max" in mm.features_innate:')],
+     "R18.9"),
+    ("orientation by an open shoelace sum of the uncentred contour (seeded)",
+     VOL,
+     [(_CENTRE_X,
+       "            contour_x = np.array(cc[:, 0], dtype=np.float64)\n"),
+      (_CCW_OLD,
+       "    area = np.sum(cx[:-1] * cy[1:] - cx[1:] * cy[:-1]) / 2\n"
+       "    if area < 0:\n")], "R18.6"),
+    ("orientation test on the uncentred contour", VOL,
+     (_CENTRE_X,
+      "            contour_x = np.array(cc[:, 0], dtype=np.float64)\n"),
+     "R18.6"),
+    ("orientation test inverted", VOL,
+     ("    if np.average(grad) < 0:\n", "    if np.average(grad) > 0:\n"),
+     "R18.6"),
+]
+
+TWINS = list(TWINS) + [
+    ("bright_bc: single-event inputs wrapped in one statement", BC,
+     (_BC_WRAP,
+      "        image, mask, image_bg = [image], [mask], [image_bg]\n")),
+    ("orientation by the closed shoelace sum (translation invariant), "
+     "axial column uncentred", VOL,
+     [(_CENTRE_X,
+       "            contour_x = np.array(cc[:, 0], dtype=np.float64)\n"),
+      (_CCW_OLD,
+       "    area = np.sum(cx * np.roll(cy, -1) - np.roll(cx, -1) * cy) / 2\n"
+       "    if area < 0:\n")]),
+    ("crosstalk recipe: dataset bound to a local", CTC,
+     [("def compute_ctc(mm, fl_channel):\n",
+       "def compute_ctc(mm, fl_channel):\n    ds = mm\n"),
+      ('    if "fl1_max" in mm:\n        fl1 = mm["fl1_max"]',
+       '    if "fl1_max" in ds:\n        fl1 = ds["fl1_max"]')]),
 ]
